@@ -16,7 +16,7 @@ NA = {
     "C04": "MAC-checked arithmetic: mac_multiply, Malicious::validate, malicious_reveal, check_zero inline their algebra between send/receive on concrete gateway types; soundness is probabilistic (1/|F|), which a deductive contract cannot state; the one local function (MaliciousAccumulator::compute_dot_product_contribution: three-party dot-product identity) was put under a Kani harness and does not close even over the 31-element field (polynomial identity in 6 variables, 15 min timeout); the batch record-id arithmetic is reported under C06.",
     "C05": "shuffle: three-party, PRSS-keyed permutation plus cross-shard resharding (async); the per-row field packing (join_fields/split_fields) is bitvec range copying + GenericArray, which aborts CBMC (bits2expr invariant) and is outside Verus' subset.",
     "C07": "secure circuits: generic in C: Context and reach the network only through SecureMul::multiply; a mock plaintext context compiles against the real trait stack but the SAT instance does not close even for 2-bit operands (async-trait boxing + BitDecomposed heap; measured 10-20 min timeouts); multiplication, reveal, share conversion, PRF and aggregation are interactive.",
-    "C16": "batch validation gating: Batcher embeds tokio::sync::watch and tracing events in its synchronous core; both trigger a kani-compiler ICE (intrinsics.rs:243, also with tracing max_level_off); Verus cannot import either; the async half is a schedule property.",
+    "C16": "batch validation gating: Batcher's synchronous core (is_ready_for_validation, get_batch) embeds tracing events and a tokio::sync::watch channel. The tracing events crash kani-compiler (ICE intrinsics.rs:243); stubbing the four tracing entry points makes it compile (probe kani/batcher.rs), but a single call on a two-batch Batcher exhausts memory in CBMC (measured: out of memory on a 62 GB machine with kissat, 35 min) because of the real watch channel (Arc, Notify lists), BitVec and VecDeque; Verus cannot import either crate; the async half (waiting for the verdict) is a schedule property.",
     "C19": "resharding: reshard_try_stream is an async send/receive loop over shard channels; order agreement across helpers is a schedule property; no synchronous core function exists to put under contract.",
     "C20": "HTTP authentication: the property quantifies over the route table of an axum Router; a contract on HelperAuthentication::call does not decide which routes are behind the layer, and TLS identity extraction lives in rustls/axum-server.",
 }
